@@ -3,6 +3,7 @@ from __future__ import annotations
 
 import copy
 import json
+import math
 
 from harness import common as C
 from harness import frames as F
@@ -12,7 +13,7 @@ PROP = "C08"
 HEADER = ("Require Import PF.Lib.PySlice PF.Model.Ragged PF.Model.RaggedSpec PF.Model.RaggedRun PF.Model.Frame "
           "PF.Model.FrameSpec PF.Model.FrameRun PF.Gen.Tables.")
 MODEL_TARGETS = ["Model/FrameRun.vo"]
-SHARD = 100
+SHARD = 150
 RULE = ("frame expressions over the TensorFrames of C07 (random subsets of the nine stypes, four storage kinds, "
         "with/without y, explicit num_rows, feature-less frames): (rowpart) cat along rows of 1-4 selections of a frame "
         "vs the frame / the selection of the concatenated positions; (colpart) cat along columns of a per-stype column "
@@ -37,6 +38,11 @@ TRUSTED = [
     "harness/c08.py + harness/frames.py (generator, nested-list reference evaluator, Coq printer)",
 ]
 ASSUMPTIONS = [
+    "difference detection is proved relative to an abstract per-scalar `close` (torch.allclose on one pair); the "
+    "correspondence instantiates it with equality on the 1/8 grid; torch's own decision is validated on both sides of "
+    "atol + rtol*|other| every run (extra: exact-rational reference, both operand orders, float32/float64, NaN) and "
+    "by perturbations at half / four times the tolerance judged by the oracle; integer tensors whose values reach "
+    "1e5 (rtol*|x| >= 1) are outside the property's 'beyond tolerance' clause and are not generated",
     "operands of == have equal dtypes per stype and targets carry no missing values (the property's quantifier); "
     "cases with a NaN target are run and compared with the model but not judged by the oracle",
     "perturbations are at least 1/8 on values below 1000, far beyond atol + rtol*|x| of torch.allclose",
@@ -160,15 +166,17 @@ def perturb(rng, fr):
     g = copy.deepcopy(fr)
     opts = [(2, "same:copy")]
     if g["feats"]:
-        opts += [(8, "cell"), (3, "name"), (2, "same:feat-order"), (2, "drop-row"), (1, "name-swap")]
+        opts += [(8, "cell"), (3, "name"), (2, "same:feat-order"), (2, "drop-row"), (2, "name-swap")]
         if any(f["kind"] == "dict" for f in g["feats"]):
-            opts += [(1, "same:dict-order"), (1, "dict-key")]
+            opts += [(3, "same:dict-order"), (4, "dict-key")]
         if any(f["kind"] == "mnt" or f["kind"] == "dict" for f in g["feats"]):
-            opts += [(2, "boundary")]
+            opts += [(4, "boundary")]
+        if any(f["kind"] == "met" and len(f["names"]) > 1 for f in g["feats"]):
+            opts += [(8, "met-boundary")]
         if _float_feats(g):
-            opts += [(3, "nan")]
+            opts += [(3, "nan"), (4, "tol-below"), (4, "tol-above")]
         if len(g["feats"]) > 1:
-            opts += [(1, "drop-feat")]
+            opts += [(3, "drop-feat")]
         opts += [(1, "same:num-rows")]
     if g["y"] is not None:
         opts += [(4, "y-value"), (2, "y-none")]
@@ -192,6 +200,32 @@ def perturb(rng, fr):
                     m[i][j][k] = v + rng.pick([1, -1, 5]) if v != -1 else 7
                 return sub, g
         return "same:copy", g
+    if sub in ("tol-below", "tol-above"):
+        # a difference just inside / just outside atol + rtol*|x| (dyadic, exactly representable in float32)
+        f = g["feats"][rng.pick(_float_feats(g))]
+        _, m = _cells_of(f, rng)
+        spots = [(i, j, k) for i, row in enumerate(m) for j, cell in enumerate(row) for k in range(len(cell))
+                 if cell[k] is not None]
+        if not spots:
+            return "same:copy", g
+        i, j, k = rng.pick(spots)
+        v = m[i][j][k]
+        tol = F.ATOL + F.RTOL * abs(v)
+        e = math.floor(math.log2(tol))
+        d = 2.0 ** (e - 1) if sub == "tol-below" else 2.0 ** (e + 2)
+        m[i][j][k] = v + (d if rng.chance(0.5) else -d)
+        return sub, g
+    if sub == "met-boundary":
+        # same flattened values of an embedding feature, different column widths (offsets)
+        f = rng.pick([x for x in g["feats"] if x["kind"] == "met" and len(x["names"]) > 1])
+        widths = [len(c) for c in f["cells"][0]] if f["cells"] else []
+        js = [j for j in range(len(widths) - 1) if widths[j] > 0]
+        if not js:
+            return "same:copy", g
+        j = rng.pick(js)
+        for row in f["cells"]:
+            row[j + 1].insert(0, row[j].pop())
+        return sub, g
     if sub == "nan":
         f = g["feats"][rng.pick(_float_feats(g))]
         _, m = _cells_of(f, rng)
@@ -317,10 +351,10 @@ def gen_malformed(rng):
     fr = F.gen_frame(rng, featureless_p=0.0)
     n = fr["n"]
     sub = rng.wpick([(3, "row:names"), (2, "row:ncols"), (2, "row:stypes"), (3, "row:mixed-y"), (2, "empty-list"),
-                     (3, "col:dup-within"), (3, "col:dup-across"), (3, "col:two-y"), (3, "col:rows"),
+                     (3, "col:dup-within"), (4, "col:dup-across"), (3, "col:two-y"), (3, "col:rows"),
                      (2, "val:ncols"), (2, "val:rows"), (2, "val:y"), (2, "val:keys"), (1, "val:empty-stype"),
                      (2, "val:dict-comp"),
-                     (1, "val:ndim"), (1, "dim"), (1, "row:kind")])
+                     (4, "val:ndim"), (1, "dim"), (1, "row:kind")])
     g = copy.deepcopy(fr)
     a = None
     if sub == "row:names":
@@ -463,6 +497,89 @@ def gen_malformed(rng):
     return {"kind": "malformed", "sub": sub, "a": a, "b": None, "lookups": [], "meta": {}}
 
 
+def feat_like(rng, slots, f, n, widths=None, keys=None):
+    """an independently generated feature with the names, stype, storage and trailing shape of f"""
+    g = F.gen_feat(rng, slots, f["stype"], n, f["names"])
+    if f["kind"] == "dense":
+        w = max(f["inner"], 1)
+        g["inner"] = f["inner"]
+        g["cells"] = [[[slots.scalar(i, f["dtype"]) for _ in range(w)] for _ in f["names"]] for i in range(n)]
+    elif f["kind"] == "met":
+        ws = widths if widths is not None else ([len(c) for c in f["cells"][0]] if f["cells"] else [1] * len(f["names"]))
+        g["cells"] = [[[slots.scalar(i, f["dtype"]) for _ in range(w)] for w in ws] for i in range(n)]
+    elif f["kind"] == "dict":
+        ks = keys if keys is not None else list(f["keys"])
+        lens = [[rng.randint(0, 2) for _ in f["names"]] for _ in range(n)]
+        g["keys"] = ks
+        g["comps"] = {k: [[[slots.scalar(i, f["dtype"], 0.0) for _ in range(lens[i][j])] for j in range(len(f["names"]))]
+                          for i in range(n)] for k in ks}
+    return g
+
+
+def gen_indep(rng):
+    """cat of INDEPENDENTLY built frames over the same col_names_dict: equal structure (must hold the rows of the parts
+    in order), or different embedding widths / dict key sets under the same names (must be rejected)"""
+    want = rng.wpick([(4, "same"), (5, "met-widths"), (3, "dict-keys")])
+    for _ in range(30):
+        fr = F.gen_frame(rng, featureless_p=0.0)
+        kinds = {f["kind"] for f in fr["feats"]}
+        if (want == "met-widths" and "met" not in kinds) or (want == "dict-keys" and "dict" not in kinds):
+            continue
+        break
+    else:
+        want = "same"
+    k = rng.randint(2, 3)
+    bad = rng.randint(1, k - 1) if want != "same" else None
+    if want != "same" and rng.chance(0.3):
+        bad = 0
+    frames = []
+    for t in range(k):
+        if t == 0 and bad != 0:
+            frames.append(fr)
+            continue
+        n = rng.randint(1, 4)
+        slots = F.Slots(rng)
+        g = {"n": n, "feats": [], "y": None, "ydtype": fr["ydtype"], "num_rows": None}
+        for f in fr["feats"]:
+            widths = keys = None
+            if t == bad and want == "met-widths" and f["kind"] == "met":
+                ws = [len(c) for c in f["cells"][0]]
+                if len(ws) > 1 and rng.chance(0.75):
+                    j = rng.randint(0, len(ws) - 2)                 # same total width, different split
+                    widths = list(ws)
+                    widths[j], widths[j + 1] = ws[j] + 1, max(ws[j + 1] - 1, 0) if ws[j + 1] > 0 else 0
+                    if widths == ws or sum(widths) != sum(ws):
+                        widths = [w + 1 for w in ws]
+                else:
+                    widths = [w + 1 for w in ws]
+            if t == bad and want == "dict-keys" and f["kind"] == "dict":
+                keys = rng.pick([f["keys"] + ["token_type_ids"], f["keys"][:1], [f["keys"][0], "other"]])
+            g["feats"].append(feat_like(rng, slots, f, n, widths, keys))
+        if fr["y"] is not None:
+            g["y"] = [slots.scalar(i, fr["ydtype"], 0.0) for i in range(n)]
+        frames.append(g)
+    dim = 0
+    if want == "dict-keys" and rng.chance(0.3):
+        # the same along columns: two parts holding columns of one dict-valued stype with different key sets
+        dim = 1
+        n = fr["n"]
+        for t, g in enumerate(frames):
+            if g is not fr and g["n"] != n:
+                frames[t] = None
+        frames = [g for g in frames if g is not None]
+        if len(frames) < 2:
+            dim = 0
+            frames = [fr, fr]
+        else:
+            for t, g in enumerate(frames):
+                g = copy.deepcopy(g)
+                g["feats"] = [dict(f, names=[f"p{t}_{x}" for x in f["names"]]) for f in g["feats"] if f["kind"] == "dict"]
+                g["y"] = None
+                frames[t] = g
+    return {"kind": "indep", "sub": want + (":cols" if dim == 1 else ""), "a": {"op": "cat", "parts": [B(g) for g in frames], "dim": dim},
+            "b": None, "lookups": all_names(frames[0])[:2] if want == "same" else [], "meta": {}}
+
+
 def REF(i):
     return {"op": "ref", "i": i}
 
@@ -519,7 +636,8 @@ def gen_reuse(rng):
             "lookups": [], "meta": {}}
 
 
-GENS = [(30, gen_rowpart), (22, gen_colpart), (20, gen_perturb), (8, gen_lookup), (10, gen_malformed), (10, gen_reuse)]
+GENS = [(24, gen_rowpart), (18, gen_colpart), (26, gen_perturb), (6, gen_lookup), (10, gen_malformed), (8, gen_reuse),
+        (10, gen_indep)]
 
 
 def exhaustive(rng):
@@ -561,11 +679,86 @@ def exhaustive(rng):
 
 
 def generate(rng, tier):
-    n = 1000 if tier == "quick" else 25000
+    n = 900 if tier == "quick" else 25000
     cases = [rng.wpick(GENS)(rng) for _ in range(n)]
     if tier == "thorough":
         cases += exhaustive(rng)
     return cases
+
+
+def extra(tier, rng):
+    """torch.allclose's decision on ONE pair of scalars on both sides of atol + rtol*|other| (the modelled primitive
+    `close`), including its asymmetry, in float64 and float32, decided independently with exact rationals."""
+    import torch
+    from fractions import Fraction as Fr
+    fails, count = [], 0
+    atol, rtol = Fr(F.ATOL), Fr(F.RTOL)
+    xs = [0.0, 0.125, -0.125, 1.0, 7.875, -64.5, 500.0, 999.875, -999.875, 1e5, 123456.0]
+    for dt, eps in ((torch.float64, 2.0 ** -20), (torch.float32, 2.0 ** -6)):
+        for b in xs:
+            tol = float(atol + rtol * abs(Fr(b)))
+            for factor in (1 - eps, 1 + eps, 0.5, 2.0, 0.0):
+                for sign in (1, -1):
+                    tb = torch.tensor([b], dtype=dt)
+                    ta = torch.tensor([b + sign * tol * factor], dtype=dt)
+                    a_, b_ = Fr(ta.item()), Fr(tb.item())
+                    for x, z, tx, tz in ((a_, b_, ta, tb), (b_, a_, tb, ta)):
+                        margin = abs(x - z) - (atol + rtol * abs(z))       # allclose(x, z): |x - z| <= atol + rtol*|z|
+                        if dt == torch.float32 and abs(margin) < Fr(tol) * Fr(1, 1000):
+                            continue                                          # float32 evaluates the bound itself in float32
+                        want = margin <= 0
+                        got = bool(torch.allclose(tx, tz))
+                        count += 1
+                        if got != want:
+                            fails.append(dict(key="primitive:allclose", case=None,
+                                              what=f"torch.allclose({float(x)!r}, {float(z)!r}) [{dt}] = {got}, "
+                                                   f"|x - z| <= atol + rtol*|z| is {want}",
+                                              expected=want, observed=got))
+    # NaN: never close without equal_nan, close to NaN with it
+    nan = torch.tensor([float("nan")])
+    for en, want in ((False, False), (True, True)):
+        count += 1
+        if bool(torch.allclose(nan, nan, equal_nan=en)) != want:
+            fails.append(dict(key="primitive:allclose-nan", case=None, what=f"allclose(nan, nan, equal_nan={en}) != {want}"))
+    count += 1
+    if bool(torch.allclose(nan, torch.tensor([1.0]), equal_nan=True)):
+        fails.append(dict(key="primitive:allclose-nan", case=None, what="allclose(nan, 1.0, equal_nan=True) is True"))
+    return fails[:3], {"allclose_primitive_checks": count}
+
+
+REQUIRED_STREAMS = [           # prefixes of kind/sub-kind; each has an expected count >= 20 per quick run
+    "rowpart/cuts", "rowpart/perm", "rowpart/any", "colpart/", "perturb/cell", "perturb/tol-", "perturb/nan",
+    "perturb/name", "perturb/boundary|perturb/met-boundary", "perturb/y-", "perturb/same:", "perturb/drop-|perturb/dict-key",
+    "lookup/", "malformed/row:", "malformed/col:", "malformed/val:", "indep/same", "indep/met-widths|indep/dict-keys",
+    "reuse/col", "reuse/row",
+]
+
+
+def sanity(cases, obss):
+    """Fail-closed distribution check (DESIGN 3.5): every stream that carries a clause of the property must be drawn,
+    every storage kind must occur, rejections stay a minority, and both outcomes of == are observed."""
+    d = stats(cases, obss)
+    probs = []
+    if not d["total"]:
+        return ["no case was run"]
+    for k in REQUIRED_STREAMS:
+        if not any(name.startswith(alt) and cnt > 0 for alt in k.split("|") for name, cnt in d["subkinds"].items()):
+            probs.append(f"stream {k} never drawn")
+    for k in ("dense", "mnt", "met", "dict", "featureless"):
+        if d["storage"].get(k, 0) == 0:
+            probs.append(f"storage kind {k} never drawn")
+    if d["rejections"] > 0.6 * d["total"]:
+        probs.append(f"{d['rejections']} of {d['total']} cases are rejections")
+    if d["eq_true"] == 0 or d["eq_false"] == 0:
+        probs.append(f"== outcomes degenerate: {d['eq_true']} True, {d['eq_false']} False")
+    if d["lookups"] == 0:
+        probs.append("no column lookup observed")
+    for n in (1, 2, 3):
+        if d["parts"].get(n, 0) == 0:
+            probs.append(f"no concatenation of {n} part(s)")
+    if d["zero_row_parts"] == 0:
+        probs.append("no zero-row part in a row partition")
+    return probs
 
 
 # ------------------------------------------------------------ implementation
@@ -644,7 +837,7 @@ def run(case):
 DEMANDED = ("empty list", "column sets differ", "some parts have a target", "more than one part has a target",
             "duplicated column names", "row counts differ", "column counts differ",
             "feat_dict and col_names_dict", "columns of data for", " rows, frame has ", "no columns",
-            "y has ", "fewer than 2 dimensions")
+            "y has ", "fewer than 2 dimensions", "embedding widths differ", "dict keys differ")
 
 
 def demanded(msg):
@@ -959,6 +1152,8 @@ def coq_term(case, obs):
         return "(" + " && ".join(terms) + ")"
     if not expr_modelable(case["a"]) or not expr_modelable(case["b"]):
         return None
+    if case["sub"] in ("tol-below", "tol-above"):
+        return None      # off the 1/8 grid: `close` is a parameter of the model; torch's decision is judged by the oracle
     oa = obs["a"]
     if oa["ok"] and oa.get("frame") is None:
         return None
